@@ -563,7 +563,7 @@ func runC16(c c16Case) *Violation {
 func TestC16(t *testing.T) {
 	Ev.Rule = "case = 3-25 operations over up to 4 simultaneously open writers of one FileSystemDataStore in a temp dir: CreateFile with the candidate names forced from a 3-name pool through the verif hook (then fresh names), chunked Write of a complete / partial valid bloom file, of garbage or of nothing, Close, Abort, TombstoneFile of any earlier pointer whose writer has ended (as the engine does, including after another writer re-used the name), OpenFile, directory scan, a Close made to fail before publishing (its .tmp removed) whose owner aborts and tombstones only later, redundant Close/Abort/Write calls on a writer whose Close already succeeded (documented as harmless), and bursts of 2-6 parallel CreateFile calls on the same forced names. Oracle: model map path -> open / closed(bytes) / gone; after EVERY operation: every non-empty .dat on disk is a closed file, every closed file has exactly the bytes written, no open writer's file is visible, CreateFile never returns a live pointer, parallel CreateFiles return distinct pointers, OpenFile returns the exact bytes, TombstoneFile leaves no .dat/.tmp of its pointer, GetMaybeFilesForQuery(nil) lists exactly the closed valid bloom files. Non-trivial: a forced name collided with a live (open or closed) file; distinct by case."
 	Ev.Assumptions = []string{"call sequences respect the DataStore contract the engine itself follows (one goroutine per writer, Close or Abort ends it, TombstoneFile only after the writer ended)", "a Close that fails is allowed; the file is then treated as never published"}
-	runChecks(t, "ops", 500, 20000, genC16(), runC16)
+	runChecks(t, "ops", 500, 100000, genC16(), runC16)
 }
 
 var _ = sort.Strings
